@@ -188,7 +188,7 @@ func (r *runner) write(root, exp reflect.Value, tl tleaf, seed uint64) error {
 	if err != nil {
 		return err
 	}
-	slot.Set(tv)
+	slot.Set(withSpare(tv, r.c.SpareCap))
 	// expected original: parents allocated on the way, by Go name
 	e := exp
 	for i, name := range f.origin {
@@ -325,6 +325,26 @@ func (r *runner) roundTrip(fills []FillEntry, what string) *vrt.Verdict {
 		return viol(r.classify(filled, d, "value"), "%s: reverse-translated value differs from the expected original at %s (expected vs got); filled %v", what, d, shape.SortedKeys(filled))
 	}
 	return nil
+}
+
+// containsSlice: a value of type t can hold a slice at some level.
+func containsSlice(t reflect.Type, depth int) bool {
+	if t == nil || depth > 6 {
+		return false
+	}
+	switch t.Kind() {
+	case reflect.Slice:
+		return true
+	case reflect.Pointer, reflect.Array, reflect.Map:
+		return containsSlice(t.Elem(), depth+1)
+	case reflect.Struct:
+		for i := 0; i < t.NumField(); i++ {
+			if t.Field(i).IsExported() && containsSlice(t.Field(i).Type, depth+1) {
+				return true
+			}
+		}
+	}
+	return false
 }
 
 func runC10(c Case) vrt.Verdict {
@@ -470,6 +490,15 @@ func runC10(c Case) vrt.Verdict {
 			if tl.f.kind == kSliceStruct {
 				convs["slice-of-struct"] = true
 			}
+			if c.SpareCap > 0 && containsSlice(tl.f.rtype, 0) {
+				convs["slice-with-spare-capacity"] = true
+				if hasConv(tl.f, "dursub") {
+					convs["dursub-slice-with-spare-capacity"] = true
+				}
+				if tl.f.rtype.Kind() != reflect.Slice || tl.f.kind == kSliceStruct {
+					convs["nested-slice-with-spare-capacity"] = true
+				}
+			}
 			for _, ch := range tl.choices {
 				if ch.alias {
 					convs["via-alias"] = true
@@ -493,7 +522,7 @@ func runC10(c Case) vrt.Verdict {
 }
 
 const c10Rule = "a config struct type from the full shape grammar (scalars, durations, text-unmarshalable and named types, slices, arrays, maps, sets, user pointers, nested / pointer / embedded structs incl. embedded types with tagged and aliased fields, slices of structs, skipped fields; depth<=3, <=8 fields per struct) with generated dials / alias / source-specific / format tags whose words are known by construction; T0 = Pointerify(T); " +
-	"%s; a subset of the original leaves is written THROUGH their translated counterparts (values from seeds, converted forward by the model: set->slice, Duration->ParsingDuration, own text rendering for string casts, the type's own MarshalText for text-unmarshalers), for every aliased field through either the primary or the alias copy. " +
+	"%s; a subset of the original leaves is written THROUGH their translated counterparts (values from seeds, converted forward by the model: set->slice, Duration->ParsingDuration, own text rendering for string casts, the type's own MarshalText for text-unmarshalers), for every aliased field through either the primary or the alias copy; in 3 of 4 cases every slice written into the translated value (top level, inside maps / pointers / arrays, inside elements of slices of structs) carries 1..3 elements of spare capacity holding junk, as append-grown decoder output does. " +
 	"Oracle: a descriptor-level model of each mangler gives every translated field its documented key (flattened dials / dialsenv / dialsflag / dialspflag tag, json / yaml / toml tag or Go name per nesting level, alias value for alias copies), type and conversion; translated fields are located by that key only; required: TranslateType yields exactly the model's key set and leaf types at every level, the reverse-translated value has type T0, each written leaf holds the value converted back, every other leaf is nil, parent pointers are allocated iff a leaf below is set, and an all-empty translated value reverses to an all-nil T0. " +
 	"non-trivial = chain length >= 2 and the shape has nesting (or an aliased field before a nested one); distinct = distinct case JSON"
 
